@@ -19,7 +19,7 @@ Lemma bind_ok {A B} (r : res A) (f : A -> res B) (b : B) :
 Proof. destruct r as [a| | |]; cbn; intro H; try discriminate. exists a; auto. Qed.
 
 Section Theory.
-  Variable loader : string -> option json.
+  Variable loader : string -> res json.
   Variable cf : nat.
 
   Notation walk' := (walk loader cf).
@@ -670,218 +670,252 @@ Section Theory.
   Definition doc_member (under : bool) (d : json) (p : path) (cn : ctx) (k : string) (s : bool) : Prop :=
     occurs under empty_ctx "" false false d p cn k s.
 
-  Section Backend.
-    Context {E DS R C : Type} (B : backend E DS R C).
-    Notation merklize := (merklize_doc loader cf B).
-
-    Lemma merklize_true_ok d r :
-      merklize true d = Ok r ->
-      exists os, undefined_occ loader cf d = Ok os /\ existsb unswallowed os = false.
-    Proof.
-      unfold merklize_doc, proc_normalize, proc_compact, expand, new_jsonld_options. cbn.
-      intro H. apply bind_ok in H. destruct H as [ds [_ H]].
-      apply bind_ok in H. destruct H as [r' [_ H]].
-      apply bind_ok in H. destruct H as [cc [H _]].
-      apply bind_ok in H. destruct H as [e [H _]].
-      apply bind_ok in H. destruct H as [rej [Hr H]].
-      unfold safe_rejects in Hr. apply bind_ok in Hr. destruct Hr as [os [Hos Hr]].
-      inversion Hr; subst rej. exists os. split; [exact Hos|].
-      destruct (existsb unswallowed os); [discriminate|reflexivity].
-    Qed.
-
-    (* C15_safe, as far as it holds for the code as it is: a successful safe-mode
-       merklization implies that every member anywhere in the document — top level,
-       nested, in array items, below @graph / @included / @reverse / @nest — that is
-       not inside an @list/@set/@default VALUE has a key that json-gold accepts
-       (keyword, or expansion containing ':') *)
-    Theorem safe_ok_all_defined d r :
-      merklize true d = Ok r ->
-      forall p cn k, doc_member true d p cn k false -> key_defined cn k = true.
-    Proof.
-      intros H p cn k Ho. destruct (merklize_true_ok _ _ H) as [os [Hos Hex]].
-      destruct (key_defined cn k) eqn:Hd; [reflexivity|].
-      unfold undefined_occ in Hos.
-      pose proof (walk_rejects _ _ _ _ _ _ _ _ _ Ho Hd eq_refl _ Hos) as Hx.
-      rewrite Hx in Hex. discriminate.
-    Qed.
-
-    (* C15_safe in full, under the hypothesis that excludes exactly the two known
-       shapes: the member is not inside an @list/@set/@default value (D26, flag
-       false) and its key is not of the "contains ':' but is no absolute IRI" shape
-       (D27).  Then the key is a keyword or expands to an absolute, non-blank IRI. *)
-    Lemma defined_absolute cn k :
-      key_defined cn k = true -> colon_not_absolute cn k = false -> key_absolute cn k = true.
-    Proof.
-      unfold key_defined, colon_not_absolute, key_absolute, undefined_exp.
-      destruct (is_keyword (expand_key cn k)); [intros; reflexivity|].
-      destruct (String.eqb (expand_key cn k) ""); [discriminate|].
-      destruct (has_colon (expand_key cn k)); cbn; [|discriminate].
-      intros _ H. apply negb_false_iff in H. rewrite H. reflexivity.
-    Qed.
-
-    Theorem safe_ok_all_absolute d r :
-      merklize true d = Ok r ->
-      forall p cn k, doc_member true d p cn k false -> colon_not_absolute cn k = false ->
-      key_absolute cn k = true.
-    Proof.
-      intros H p cn k Ho Hc. apply defined_absolute; [|exact Hc].
-      eapply safe_ok_all_defined; eauto.
-    Qed.
-
-    (* C15_safe_rejects *)
-    Theorem safe_rejects_undefined d p cn k :
-      doc_member true d p cn k false -> key_defined cn k = false ->
-      forall r, merklize true d <> Ok r.
-    Proof.
-      intros Ho Hd r H. pose proof (safe_ok_all_defined _ _ H _ _ _ Ho) as Hx.
-      rewrite Hx in Hd. discriminate.
-    Qed.
-
-    Theorem safe_rejects_undefined_err d p cn k os r' :
-      doc_member true d p cn k false -> key_defined cn k = false ->
-      undefined_occ loader cf d = Ok os ->
-      merklize false d = Ok r' ->
-      merklize true d = Err "invalid property".
-    Proof.
-      intros Ho Hd Hos Hu.
-      pose proof (walk_rejects _ _ _ _ _ _ _ _ _ Ho Hd eq_refl _ Hos) as Hx.
-      revert Hu.
-      unfold merklize_doc, proc_normalize, proc_compact, expand, new_jsonld_options, safe_rejects. cbn.
-      destruct (b_expand B d) as [e| | |]; cbn; try discriminate.
-      destruct (b_to_rdf B e) as [ds| | |]; cbn; try discriminate.
-      destruct (b_merk B ds) as [r0| | |]; cbn; try discriminate.
-      intros _. rewrite Hos. cbn. rewrite Hx. reflexivity.
-    Qed.
-
-    (* no spurious rejection: if every member expansion reaches is defined, safe mode
-       behaves exactly like unsafe mode *)
-    Theorem modes_agree_when_defined d os :
-      undefined_occ loader cf d = Ok os ->
-      (forall p cn k s, reach empty_ctx "" false false d p cn k s -> key_defined cn k = true) ->
-      merklize true d = merklize false d.
-    Proof.
-      intros Hos Hall.
-      assert (os = []) as ->.
-      { destruct os as [|[p s] t]; [reflexivity|].
-        destruct (walk_sound _ _ _ _ _ _ p s Hos (or_introl eq_refl)) as [cn [k [Hr Hd]]].
-        rewrite (Hall _ _ _ _ Hr) in Hd. discriminate. }
-      unfold merklize_doc, proc_normalize, proc_compact, expand, new_jsonld_options, safe_rejects. cbn.
-      rewrite Hos. reflexivity.
-    Qed.
-
-    (* the refutation of the full statement: an undefined member inside an @set value
-       is invisible to safe mode — both modes give the same result *)
-    Theorem swallowed_invisible d os :
-      undefined_occ loader cf d = Ok os -> existsb unswallowed os = false ->
-      merklize true d = merklize false d.
-    Proof.
-      intros Hos Hex.
-      unfold merklize_doc, proc_normalize, proc_compact, expand, new_jsonld_options, safe_rejects. cbn.
-      rewrite Hos. cbn. rewrite Hex. reflexivity.
-    Qed.
-
-    (* C15_unsafe — under the stated interface property of json-gold's expansion *)
-    Definition expand_ignores_undefined : Prop :=
-      forall d, b_expand B d = b_expand B (strip_undefined loader cf d).
-
-    Theorem unsafe_is_stripped :
-      expand_ignores_undefined ->
-      forall d, merklize false d = merklize false (strip_undefined loader cf d).
-    Proof.
-      intros Hi d.
-      unfold merklize_doc, proc_normalize, proc_compact, expand, new_jsonld_options. cbn.
-      rewrite <- (Hi d). reflexivity.
-    Qed.
-
-    (* ... and the stripped document is, context-free, the document with exactly the
-       members deleted that the scan reports (which are exactly the undefined members
-       expansion reaches: walk_sound / walk_complete) *)
-    Theorem unsafe_is_removal :
-      expand_ignores_undefined ->
-      forall d os, wf d -> undefined_occ loader cf d = Ok os ->
-      merklize false d = merklize false (remove_members (map fst os) d).
-    Proof.
-      intros Hi d os Hwf Hos. rewrite (unsafe_is_stripped Hi d).
-      rewrite (strip_is_removal d os Hwf Hos). reflexivity.
-    Qed.
-
-    (* ---- option plumbing ---- *)
-    Definition effective_safe (opts : list mz_option) : bool :=
-      fold_left (fun acc o => match o with WithSafeMode b => b | OOther => acc end) opts true.
-
-    Lemma new_merklizer_safe opts :
-      mz_safe_mode (new_merklizer opts) = effective_safe opts.
-    Proof.
-      unfold new_merklizer, effective_safe.
-      generalize true. induction opts as [|o t IH]; intro b; cbn; [reflexivity|].
-      destruct o; cbn; apply IH.
-    Qed.
-
-    Theorem plumbing_MerklizeJSONLD opts d :
-      MerklizeJSONLD loader cf B opts d = merklize (effective_safe opts) d.
-    Proof. unfold MerklizeJSONLD. rewrite new_merklizer_safe. reflexivity. Qed.
-
-    Theorem plumbing_W3C vc opts :
-      W3CCredential_Merklize loader cf B vc opts = merklize (effective_safe opts) vc.
-    Proof. apply plumbing_MerklizeJSONLD. Qed.
-
-    Theorem plumbing_ToCoreClaim vc copts :
-      ToCoreClaim_merklize loader cf B vc copts =
-      merklize (effective_safe (match copts with Some o => o | None => [] end)) vc.
-    Proof. apply plumbing_MerklizeJSONLD. Qed.
-
-    Theorem plumbing_VerifyProof vc mopts :
-      VerifyProof_merklize loader cf B vc mopts = merklize (effective_safe mopts) vc.
-    Proof. apply plumbing_MerklizeJSONLD. Qed.
-
-    Lemma effective_safe_last opts b :
-      effective_safe (opts ++ [WithSafeMode b]) = b.
-    Proof. unfold effective_safe. rewrite fold_left_app. reflexivity. Qed.
-
-    Lemma effective_safe_no_option opts :
-      (forall o, In o opts -> o = OOther) -> effective_safe opts = true.
-    Proof.
-      unfold effective_safe. generalize true.
-      induction opts as [|o t IH]; intros b H; cbn; [reflexivity|].
-      rewrite (H o (or_introl eq_refl)). apply IH. intros o' Ho'. apply H. right. exact Ho'.
-    Qed.
-
-    (* Normalize never sees the mode; Compact does *)
-    Lemma normalize_ignores_mode o1 o2 d :
-      proc_normalize loader cf B o1 d = proc_normalize loader cf B o2 d.
-    Proof. reflexivity. Qed.
-
-    Lemma compact_sees_mode safe d :
-      proc_compact loader cf B (new_jsonld_options safe) d =
-      (e <- expand loader cf B safe d ;; b_compact B e).
-    Proof. reflexivity. Qed.
-
-    (* C15_default: with no option at all every entry point is safe *)
-    Theorem default_safe d :
-      MerklizeJSONLD loader cf B [] d = merklize true d /\
-      W3CCredential_Merklize loader cf B d [] = merklize true d /\
-      ToCoreClaim_merklize loader cf B d None = merklize true d /\
-      VerifyProof_merklize loader cf B d [] = merklize true d /\
-      ld_safe_mode options_jsonld_options = true.
-    Proof. repeat split. Qed.
-
-    (* C15_plumbing: every entry point that merklizes runs merklize_doc in the mode
-       selected by the caller's options (the last WithSafeMode wins, none = safe) *)
-    Theorem plumbing_all opts d :
-      MerklizeJSONLD loader cf B opts d = merklize (effective_safe opts) d /\
-      W3CCredential_Merklize loader cf B d opts = merklize (effective_safe opts) d /\
-      ToCoreClaim_merklize loader cf B d (Some opts) = merklize (effective_safe opts) d /\
-      VerifyProof_merklize loader cf B d opts = merklize (effective_safe opts) d.
-    Proof.
-      repeat split; [apply plumbing_MerklizeJSONLD|apply plumbing_W3C|
-                     apply (plumbing_ToCoreClaim d (Some opts))|apply plumbing_VerifyProof].
-    Qed.
-  End Backend.
+  Lemma defined_absolute cn k :
+    key_defined cn k = true -> colon_not_absolute cn k = false -> key_absolute cn k = true.
+  Proof.
+    unfold key_defined, colon_not_absolute, key_absolute, undefined_exp.
+    destruct (is_keyword (expand_key cn k)); [intros; reflexivity|].
+    destruct (String.eqb (expand_key cn k) ""); [discriminate|].
+    destruct (has_colon (expand_key cn k)); cbn; [|discriminate].
+    intros _ H. apply negb_false_iff in H. rewrite H. reflexivity.
+  Qed.
 End Theory.
+
+(* ------------------------------------------------- MerklizeJSONLD theorems *)
+Section Backend.
+  Variable cf : nat.
+  Context {E DS R C : Type} (B : backend E DS R C).
+  Notation merklize := (merklize_doc cf B).
+
+  (* a successful safe-mode run: the scan under the COMPACT-phase behaviour of the
+     loader succeeded (every context loaded) and found nothing unswallowed *)
+  Lemma merklize_true_ok dl d r :
+    merklize true dl d = Ok r ->
+    exists os, undefined_occ (view_compact dl) cf d = Ok os /\ existsb unswallowed os = false.
+  Proof.
+    unfold merklize_doc, proc_normalize, proc_compact, expand, new_jsonld_options. cbn.
+    intro H. apply bind_ok in H. destruct H as [ds [_ H]].
+    apply bind_ok in H. destruct H as [r' [_ H]].
+    apply bind_ok in H. destruct H as [cc [H _]].
+    apply bind_ok in H. destruct H as [e [H _]].
+    apply bind_ok in H. destruct H as [rej [Hr H]].
+    unfold safe_rejects in Hr. apply bind_ok in Hr. destruct Hr as [os [Hos Hr]].
+    inversion Hr; subst rej. exists os. split; [exact Hos|].
+    destruct (existsb unswallowed os); [discriminate|reflexivity].
+  Qed.
+
+  (* C15_safe_partial: for EVERY loader behaviour (dl arbitrary, nil included) *)
+  Theorem safe_ok_all_defined dl d r :
+    merklize true dl d = Ok r ->
+    forall p cn k, doc_member (view_compact dl) cf true d p cn k false -> key_defined cn k = true.
+  Proof.
+    intros H p cn k Ho. destruct (merklize_true_ok _ _ _ H) as [os [Hos Hex]].
+    destruct (key_defined cn k) eqn:Hd; [reflexivity|].
+    unfold undefined_occ in Hos.
+    pose proof (walk_rejects _ _ _ _ _ _ _ _ _ _ _ Ho Hd eq_refl _ Hos) as Hx.
+    rewrite Hx in Hex. discriminate.
+  Qed.
+
+  Theorem safe_ok_all_absolute dl d r :
+    merklize true dl d = Ok r ->
+    forall p cn k, doc_member (view_compact dl) cf true d p cn k false ->
+    colon_not_absolute cn k = false -> key_absolute cn k = true.
+  Proof.
+    intros H p cn k Ho Hc. apply defined_absolute; [|exact Hc].
+    eapply safe_ok_all_defined; eauto.
+  Qed.
+
+  (* a context that cannot be loaded or processed while Compact runs — whatever
+     happened during Normalize — makes safe mode fail: never Ok *)
+  Theorem safe_compact_phase_failure dl d :
+    (forall os, undefined_occ (view_compact dl) cf d <> Ok os) ->
+    forall r, merklize true dl d <> Ok r.
+  Proof.
+    intros Hf r H. destruct (merklize_true_ok _ _ _ H) as [os [Hos _]]. exact (Hf os Hos).
+  Qed.
+
+  (* C15_safe_rejects *)
+  Theorem safe_rejects_undefined dl d p cn k :
+    doc_member (view_compact dl) cf true d p cn k false -> key_defined cn k = false ->
+    forall r, merklize true dl d <> Ok r.
+  Proof.
+    intros Ho Hd r H. pose proof (safe_ok_all_defined _ _ _ H _ _ _ Ho) as Hx.
+    rewrite Hx in Hd. discriminate.
+  Qed.
+
+  Theorem safe_rejects_undefined_err dl d p cn k os r' :
+    doc_member (view_compact dl) cf true d p cn k false -> key_defined cn k = false ->
+    undefined_occ (view_compact dl) cf d = Ok os ->
+    merklize false dl d = Ok r' ->
+    merklize true dl d = Err "invalid property".
+  Proof.
+    intros Ho Hd Hos Hu.
+    pose proof (walk_rejects _ _ _ _ _ _ _ _ _ _ _ Ho Hd eq_refl _ Hos) as Hx.
+    revert Hu.
+    unfold merklize_doc, proc_normalize, proc_compact, expand, new_jsonld_options, safe_rejects. cbn.
+    destruct (b_expand B (view_normalize dl) d) as [e| | |]; cbn; try discriminate.
+    destruct (b_to_rdf B e) as [ds| | |]; cbn; try discriminate.
+    destruct (b_merk B ds) as [r0| | |]; cbn; try discriminate.
+    intros _. rewrite Hos. cbn. rewrite Hx. reflexivity.
+  Qed.
+
+  (* no spurious rejection: if every member expansion reaches is defined, safe mode
+     behaves exactly like unsafe mode *)
+  Theorem modes_agree_when_defined dl d os :
+    undefined_occ (view_compact dl) cf d = Ok os ->
+    (forall p cn k s, reach (view_compact dl) cf empty_ctx "" false false d p cn k s ->
+                      key_defined cn k = true) ->
+    merklize true dl d = merklize false dl d.
+  Proof.
+    intros Hos Hall.
+    assert (os = []) as ->.
+    { destruct os as [|[p s] t]; [reflexivity|].
+      destruct (walk_sound _ _ _ _ _ _ _ _ p s Hos (or_introl eq_refl)) as [cn [k [Hr Hd]]].
+      rewrite (Hall _ _ _ _ Hr) in Hd. discriminate. }
+    unfold merklize_doc, proc_normalize, proc_compact, expand, new_jsonld_options, safe_rejects. cbn.
+    rewrite Hos. reflexivity.
+  Qed.
+
+  (* the refutation of the full statement: an undefined member inside an @set value
+     is invisible to safe mode — both modes give the same result *)
+  Theorem swallowed_invisible dl d os :
+    undefined_occ (view_compact dl) cf d = Ok os -> existsb unswallowed os = false ->
+    merklize true dl d = merklize false dl d.
+  Proof.
+    intros Hos Hex.
+    unfold merklize_doc, proc_normalize, proc_compact, expand, new_jsonld_options, safe_rejects. cbn.
+    rewrite Hos. cbn. rewrite Hex. reflexivity.
+  Qed.
+
+  (* C15_unsafe — under the stated interface property of json-gold's expansion, for
+     a loader that answers the same way in both phases *)
+  Definition expand_ignores_undefined : Prop :=
+    forall ld d, b_expand B ld d = b_expand B ld (strip_undefined ld cf d).
+  Definition steady (ld : lview) : option dloader := Some {| dl_normalize := ld; dl_compact := ld |}.
+
+  Theorem unsafe_is_stripped :
+    expand_ignores_undefined ->
+    forall ld d, merklize false (steady ld) d = merklize false (steady ld) (strip_undefined ld cf d).
+  Proof.
+    intros Hi ld d.
+    unfold merklize_doc, proc_normalize, proc_compact, expand, new_jsonld_options, steady. cbn.
+    rewrite <- (Hi ld d). reflexivity.
+  Qed.
+
+  (* ... and the stripped document is, context-free, the document with exactly the
+     members deleted that the scan reports (which are exactly the undefined members
+     expansion reaches: walk_sound / walk_complete) *)
+  Theorem unsafe_is_removal :
+    expand_ignores_undefined ->
+    forall ld d os, wf d -> undefined_occ ld cf d = Ok os ->
+    merklize false (steady ld) d = merklize false (steady ld) (remove_members (map fst os) d).
+  Proof.
+    intros Hi ld d os Hwf Hos. rewrite (unsafe_is_stripped Hi ld d).
+    rewrite (strip_is_removal ld cf d os Hwf Hos). reflexivity.
+  Qed.
+
+  (* ---- option plumbing ---- *)
+  Definition effective_safe (opts : list mz_option) : bool :=
+    fold_left (fun acc o => match o with WithSafeMode b => b | _ => acc end) opts true.
+  Definition effective_doc_loader (opts : list mz_option) : option dloader :=
+    fold_left (fun acc o => match o with WithDocumentLoader l => l | _ => acc end) opts None.
+  Definition effective_ipfs (opts : list mz_option) : option dloader :=
+    fold_left (fun acc o => match o with WithIPFS l => Some l | _ => acc end) opts None.
+  (* merklize.go:1631 getDocumentLoader *)
+  Definition effective_loader (default : option dloader) (opts : list mz_option) : option dloader :=
+    match effective_doc_loader opts with
+    | Some l => Some l
+    | None => match effective_ipfs opts with Some l => Some l | None => default end
+    end.
+
+  Lemma fold_fields opts : forall m,
+    mz_safe_mode (fold_left apply_option opts m) =
+      fold_left (fun acc o => match o with WithSafeMode b => b | _ => acc end) opts (mz_safe_mode m) /\
+    mz_document_loader (fold_left apply_option opts m) =
+      fold_left (fun acc o => match o with WithDocumentLoader l => l | _ => acc end) opts (mz_document_loader m) /\
+    mz_ipfs (fold_left apply_option opts m) =
+      fold_left (fun acc o => match o with WithIPFS l => Some l | _ => acc end) opts (mz_ipfs m).
+  Proof.
+    induction opts as [|o t IH]; intro m; cbn [fold_left]; [auto|].
+    destruct o as [b|l|l|].
+    - exact (IH (apply_option m (WithSafeMode b))).
+    - exact (IH (apply_option m (WithDocumentLoader l))).
+    - exact (IH (apply_option m (WithIPFS l))).
+    - exact (IH m).
+  Qed.
+
+  Lemma new_merklizer_fields opts :
+    mz_safe_mode (new_merklizer opts) = effective_safe opts /\
+    mz_document_loader (new_merklizer opts) = effective_doc_loader opts /\
+    mz_ipfs (new_merklizer opts) = effective_ipfs opts.
+  Proof. apply (fold_fields opts). Qed.
+
+  (* the mode never depends on the loader configuration, and vice versa *)
+  Theorem plumbing_MerklizeJSONLD default opts d :
+    MerklizeJSONLD cf B default opts d =
+    merklize (effective_safe opts) (effective_loader default opts) d.
+  Proof.
+    unfold MerklizeJSONLD, get_document_loader, effective_loader.
+    destruct (new_merklizer_fields opts) as [H1 [H2 H3]]. rewrite H1, H2, H3. reflexivity.
+  Qed.
+
+  Lemma effective_safe_last opts b :
+    effective_safe (opts ++ [WithSafeMode b]) = b.
+  Proof. unfold effective_safe. rewrite fold_left_app. reflexivity. Qed.
+
+  Lemma effective_safe_no_option opts :
+    (forall o, In o opts -> forall b, o <> WithSafeMode b) -> effective_safe opts = true.
+  Proof.
+    unfold effective_safe. generalize true.
+    induction opts as [|o t IH]; intros b H; cbn; [reflexivity|].
+    destruct o as [b'| | |]; try (apply IH; intros o' Ho'; apply H; right; exact Ho').
+    exfalso. apply (H (WithSafeMode b') (or_introl eq_refl) b'). reflexivity.
+  Qed.
+
+  (* newJSONLDOptions sets the mode whatever the loader is (nil included) *)
+  Lemma new_options_mode safe dl : ld_safe_mode (new_jsonld_options safe dl) = safe.
+  Proof. reflexivity. Qed.
+
+  (* Normalize never sees the mode; Compact does *)
+  Lemma normalize_ignores_mode s1 s2 dl d :
+    proc_normalize cf B (new_jsonld_options s1 dl) d = proc_normalize cf B (new_jsonld_options s2 dl) d.
+  Proof. reflexivity. Qed.
+
+  Lemma compact_sees_mode safe dl d :
+    proc_compact cf B (new_jsonld_options safe dl) d =
+    (e <- expand cf B safe (view_compact dl) d ;; b_compact B e).
+  Proof. reflexivity. Qed.
+
+  (* C15_default: with no safe-mode option every entry point is safe, whatever the
+     loader configuration (explicit loader, IPFS, process-wide default, nil) *)
+  Theorem default_safe default opts d :
+    (forall o, In o opts -> forall b, o <> WithSafeMode b) ->
+    MerklizeJSONLD cf B default opts d = merklize true (effective_loader default opts) d /\
+    W3CCredential_Merklize cf B default d opts = merklize true (effective_loader default opts) d /\
+    ToCoreClaim_merklize cf B default d (Some opts) = merklize true (effective_loader default opts) d /\
+    ToCoreClaim_merklize cf B default d None = merklize true default d /\
+    VerifyProof_merklize cf B default d opts = merklize true (effective_loader default opts) d /\
+    ld_safe_mode (options_jsonld_options default) = true.
+  Proof.
+    intro H. pose proof (plumbing_MerklizeJSONLD default opts d) as P.
+    rewrite (effective_safe_no_option opts H) in P.
+    repeat split; try exact P.
+  Qed.
+
+  (* C15_plumbing: every entry point that merklizes runs merklize_doc in the mode
+     selected by the caller's options (the last WithSafeMode wins, none = safe) *)
+  Theorem plumbing_all default opts d :
+    MerklizeJSONLD cf B default opts d = merklize (effective_safe opts) (effective_loader default opts) d /\
+    W3CCredential_Merklize cf B default d opts = merklize (effective_safe opts) (effective_loader default opts) d /\
+    ToCoreClaim_merklize cf B default d (Some opts) = merklize (effective_safe opts) (effective_loader default opts) d /\
+    VerifyProof_merklize cf B default d opts = merklize (effective_safe opts) (effective_loader default opts) d.
+  Proof. repeat split; apply plumbing_MerklizeJSONLD. Qed.
+End Backend.
 
 (* ------------------------------------------------------------ non-vacuity *)
 Module Examples.
-  Definition no_loader (u : string) : option json := None.
+  Definition no_loader : lview := fun _ => Err "offline".
+  Definition steady_none : option dloader := steady no_loader.
   Definition cx : json :=
     JObj [("ex", JStr "http://ex.org/v#"); ("name", JStr "ex:name");
           ("T", JObj [("@id", JStr "ex:T"); ("@context", JObj [("tp", JStr "ex:tp")])]);
@@ -891,7 +925,7 @@ Module Examples.
 
   (* a backend that always succeeds: the document is its own root *)
   Definition idB : backend json json json unit :=
-    {| b_expand := fun d => Ok d; b_to_rdf := fun d => Ok d; b_merk := fun d => Ok d;
+    {| b_expand := fun _ d => Ok d; b_to_rdf := fun d => Ok d; b_merk := fun d => Ok d;
        b_compact := fun _ => Ok tt |}.
 
   Definition good := doc [("name", JStr "a"); ("child", JArr [JObj [("cp", JStr "r"); ("ex:q", JNum "1")]])].
@@ -900,12 +934,12 @@ Module Examples.
   Definition bad_in_set := doc [("child", JObj [("@set", JArr [JObj [("cp", JStr "r"); ("zzz", JNum "1")]])])].
   Definition blank_prop := doc [("name", JStr "a"); ("_:p", JStr "b")].
 
-  Example good_accepted : merklize_doc no_loader 20 idB true good = Ok good.
+  Example good_accepted : merklize_doc 20 idB true steady_none good = Ok good.
   Proof. vm_compute. reflexivity. Qed.
   Example bad_nested_rejected :
-    merklize_doc no_loader 20 idB true bad_nested = Err "invalid property" /\
+    merklize_doc 20 idB true steady_none bad_nested = Err "invalid property" /\
     undefined_occ no_loader 20 bad_nested = Ok [([PK "child"; PI 0%N; PK "zzz"], false)] /\
-    merklize_doc no_loader 20 idB false bad_nested = Ok bad_nested.
+    merklize_doc 20 idB false steady_none bad_nested = Ok bad_nested.
   Proof. vm_compute. repeat split. Qed.
   Example bad_scope_rejected :
     undefined_occ no_loader 20 bad_scope = Ok [([PK "child"; PK "tp"], false)].
@@ -932,19 +966,40 @@ Module Examples.
      error of the nested Expand under @set): safe mode accepts a document in which
      the undefined member zzz occurs *)
   Example in_set_accepted :
-    merklize_doc no_loader 20 idB true bad_in_set = Ok bad_in_set /\
+    merklize_doc 20 idB true steady_none bad_in_set = Ok bad_in_set /\
     undefined_occ no_loader 20 bad_in_set = Ok [([PK "child"; PK "@set"; PI 0%N; PK "zzz"], true)].
   Proof. vm_compute. split; reflexivity. Qed.
 
   (* json-gold's notion of "defined" is weaker than "expands to an absolute IRI" *)
   Example blank_property_passes :
-    merklize_doc no_loader 20 idB true blank_prop = Ok blank_prop /\
+    merklize_doc 20 idB true steady_none blank_prop = Ok blank_prop /\
     key_absolute (Ctx [] None None) "_:p" = false /\ key_defined (Ctx [] None None) "_:p" = true.
   Proof. vm_compute. repeat split. Qed.
 
   Example default_is_safe :
-    MerklizeJSONLD no_loader 20 idB [] bad_nested = Err "invalid property" /\
-    MerklizeJSONLD no_loader 20 idB [OOther; WithSafeMode false] bad_nested = Ok bad_nested /\
-    MerklizeJSONLD no_loader 20 idB [WithSafeMode false; OOther; WithSafeMode true] bad_nested = Err "invalid property".
+    MerklizeJSONLD 20 idB None [] bad_nested = Err "invalid property" /\
+    MerklizeJSONLD 20 idB None [OOther; WithSafeMode false] bad_nested = Ok bad_nested /\
+    MerklizeJSONLD 20 idB None [WithSafeMode false; WithDocumentLoader None; WithSafeMode true] bad_nested
+      = Err "invalid property".
   Proof. vm_compute. repeat split. Qed.
+
+  (* a remote context served while Normalize runs and gone when Compact runs: safe
+     mode must fail (it does: the scan cannot load the context), although the
+     entries were already built *)
+  Definition remote_doc : json :=
+    JObj [("@context", JStr "https://ctx.example/c"); ("name", JStr "a"); ("zzz", JNum "1")].
+  Definition serving : lview := fun u =>
+    if String.eqb u "https://ctx.example/c" then Ok (JObj [("@context", cx)]) else Err "404".
+  Definition flaky : option dloader := Some {| dl_normalize := serving; dl_compact := no_loader |}.
+  Example flaky_loader_rejected :
+    merklize_doc 20 idB true flaky remote_doc = Err "loading remote context failed" /\
+    merklize_doc 20 idB true (steady serving) remote_doc = Err "invalid property" /\
+    (forall os, undefined_occ (view_compact flaky) 20 remote_doc <> Ok os).
+  Proof. vm_compute. repeat split. intros os H. discriminate. Qed.
+
+  (* nil process-wide loader, inline contexts: still safe *)
+  Example nil_loader_still_safe :
+    MerklizeJSONLD 20 idB None [] bad_nested = Err "invalid property" /\
+    MerklizeJSONLD 20 idB None [] good = Ok good.
+  Proof. vm_compute. split; reflexivity. Qed.
 End Examples.
